@@ -396,46 +396,44 @@ fn fresh_for(r: &NameRef, i: usize) -> String {
     }
 }
 
-/// Which names trigger the failure: a name is a trigger when replacing it (everywhere) by a
-/// fresh benign identifier makes the failure class disappear. Returns (triggers, canonical
-/// text used when there is no trigger, number of pipeline runs).
-pub fn attribute(case: &Case, fail: &Fail, node: &mut Node) -> (Vec<String>, String, u64) {
-    let mut runs = 0u64;
-    let mut triggers = vec![];
-    let same_class = |p: &Prog, node: &mut Node, runs: &mut u64| -> Option<bool> {
-        if !wf(p) {
-            return None;
-        }
-        let c = Case { prog: p.clone(), shorthand: case.shorthand, family: case.family };
-        let o = pipeline(&c.did(), Some(&p.to_model()), node);
-        *runs += 1;
-        if o.rejected.is_some() || o.harness.is_some() {
-            return None;
-        }
-        Some(o.fail.map(|f| f.class == fail.class).unwrap_or(false))
-    };
+pub struct Attribution {
+    /// names that cannot be replaced by fresh benign identifiers without losing the failure
+    pub triggers: Vec<String>,
+    /// the program with every other name replaced (a real, executed, failing program)
+    pub min: Case,
+    pub min_fail: Fail,
+    pub min_js: Option<String>,
+    pub min_resp: Option<serde_json::Value>,
+    pub runs: u64,
+}
+
+/// Greedy minimisation over names: in order of occurrence, replace a name (everywhere) by a
+/// fresh benign identifier; keep the replacement when the failure class persists. The names
+/// that could not be replaced trigger the failure (a 1-minimal set).
+pub fn attribute(case: &Case, fail: &Fail, js: &Option<String>, resp: &Option<serde_json::Value>, node: &mut Node) -> Attribution {
+    let mut at = Attribution { triggers: vec![], min: case.clone(), min_fail: fail.clone(), min_js: js.clone(), min_resp: resp.clone(), runs: 0 };
     let all: Vec<NameRef> = names_of(&case.prog);
     for (i, r) in all.iter().enumerate() {
-        let p2 = rename(&case.prog, r, &fresh_for(r, i));
-        if same_class(&p2, node, &mut runs) == Some(false) {
-            triggers.push(r.show());
+        let p2 = rename(&at.min.prog, r, &fresh_for(r, i));
+        if !wf(&p2) {
+            continue;
+        }
+        let c = Case { prog: p2, shorthand: case.shorthand, family: case.family };
+        let o = pipeline(&c.did(), Some(&c.prog.to_model()), node);
+        at.runs += 1;
+        if o.rejected.is_some() || o.harness.is_some() {
+            continue;
+        }
+        match o.fail {
+            Some(f) if f.class == fail.class => {
+                at.min = c;
+                at.min_fail = f;
+                at.min_js = o.js;
+                at.min_resp = o.resp;
+            }
+            _ => at.triggers.push(r.show()),
         }
     }
-    triggers.sort();
-    let mut canon = case.did();
-    if triggers.is_empty() {
-        // structural failure: canonicalise every name that can be replaced without losing it
-        let mut p = case.prog.clone();
-        for (i, r) in all.iter().enumerate() {
-            if matches!(r, NameRef::LabelId(_)) {
-                continue;
-            }
-            let p2 = rename(&p, r, &fresh_for(r, i));
-            if same_class(&p2, node, &mut runs) == Some(true) {
-                p = p2;
-            }
-        }
-        canon = Case { prog: p, shorthand: case.shorthand, family: case.family }.did();
-    }
-    (triggers, canon, runs)
+    at.triggers.sort();
+    at
 }
